@@ -145,7 +145,7 @@ def check_text(o, text, comments, binary, what):
     return True
 
 
-HIST_OPS = [("bin", 1, 5), ("bin", 3, 9), ("plainblob",), ("encblob",), ("append",), ("pop",), ("tag",)]
+HIST_OPS = [("bin", 1, 5), ("bin", 3, 9), ("plainblob",), ("encblob",), ("append",), ("pop",), ("tag",), ("readback",)]
 
 
 def run_history(ctx, o, seq):
@@ -153,12 +153,28 @@ def run_history(ctx, o, seq):
              {"tags": [(0xC3, b"\x03"), (0xC2, b"\x02")], "content": shapes.payload(ctx, "c03-h1", 21, 1), "declared": 21, "enc": True}]
     f = shapes.mk_bf3([], model)
     n = 0
+    last = None
     for step, oi in enumerate(seq):
         op = HIST_OPS[oi]
         n += 1
-        if op[0] == "bin":
+        if op[0] == "readback":
+            # continue with the object the READER builds from the last serialisation (offset 5 = BF3 signature)
+            if last is None or last[1] != 5:
+                return Outcome("no-bf3-serialisation-yet", False)
+            from bec2format.bytes_reader import BytesReader
+            rdr = BytesReader(L.BF3_SIG + last[0], "replay")
+            rdr.read(5)
+            f = Bf3File.from_binary(rdr, {}, True, last[2])
+            for c in f.components:
+                if c.description.get(0xC2) == b"\x02":
+                    c.blob = c.blob[:c.actual_len]
+            import copy as _copy
+            model = _copy.deepcopy(last[3])      # edits made after that serialisation are gone with the old object
+        elif op[0] == "bin":
             key = key_of(ctx, op[1])
             got = f.to_binary(op[2], key)
+            import copy as _copy
+            last = (got, op[2], key, _copy.deepcopy(model))
             if not check_binary(o, got, model, op[2], key, "to_binary after operations %r" % ([HIST_OPS[x] for x in seq[:step + 1]],)):
                 o.viols = [("history|" + fp, m, d) for fp, m, d in o.viols]
                 return o
